@@ -1,9 +1,9 @@
 package main
 
 import (
-	"go/token"
 	"fmt"
 	"go/ast"
+	"go/token"
 	"go/types"
 	"sort"
 	"strings"
@@ -268,7 +268,6 @@ func c06OnceKey(c *Check, a *Anchors) {
 	})
 	c.Decide(usesTask && usesStruct, "once-key", "name-and-structure@"+fnDisplay(hashFn), hashFn.Decl.Pos(), "key = f(Task, hashstructure(task))", "the when_changed key does not combine the task name with the structural hash of the compiled task")
 }
-
 
 // c06RunModeTable decides the same mapping when GetHash looks the mode up in a package-level map literal.
 func c06RunModeTable(c *Check, a *Anchors, fb *FuncBody) bool {
